@@ -222,27 +222,38 @@ func Check(env *core.Env, rep *core.Report) *core.Result {
 		repoInfo = map[string]interface{}{"executions_recorded": total, "accepted": accepted, "outside_trace_spec_shape": skippedEx, "note": rnote}
 	}
 
+	// whole-binary executions against the composed specification Taskctl.tla
+	nBin := 40
+	if thorough {
+		nBin = 600
+	}
+	composeInfo := ComposeCheck(env, rep, nBin)
+	if a, ok := composeInfo["accepted"].(int); ok {
+		validated += a
+	}
+
 	// binding self-test: a corrupted trace must be rejected
 	selftest := bindingSelfTest(env, byN)
 
 	gen, dist, runs, cmds := core.TLCTotals()
 	cov := map[string]interface{}{
 		"states": dist, "transitions": gen, "tlc_runs": runs,
-		"traces_validated_against_impl":     replayed + validated,
-		"lockstep_behaviours_replayed":      replayed,
-		"recorded_traces_accepted":          validated,
-		"recorded_traces_total":             nTraces,
-		"evaluations":                       replayed + nTraces,
-		"distinct_nontrivial":               nontrivial,
-		"rule":                              "lock-step: every behaviour (configuration x completion order) emitted by SchedGen.tla for the listed configs, distinct by (configuration, release order), non-trivial = at least 2 releases; traces: seeded random DAGs of 2..8 stages (nested pipeline 1/3, unevaluable condition 1/4, caller Cancel 1/5) with random release timing",
-		"model_runs":                        modelRuns,
-		"distinct_lockstep_cases":           distinct.N(),
-		"binding_selftest":                  selftest,
-		"repository_tests_as_trace_sources": repoInfo,
-		"samples":                           samples.List(),
-		"checker_cmds":                      cmds,
-		"exhaustive":                        true,
-		"exhaustive_scope":                  "all DAGs on <=3 stages x 4 classes x all completion orders (flat and with one nested pipeline); quick samples 3000 of the 43897 4-stage behaviours, thorough replays all of them and the 55284 nested 4-stage ones",
+		"traces_validated_against_impl":           replayed + validated,
+		"lockstep_behaviours_replayed":            replayed,
+		"recorded_traces_accepted":                validated,
+		"recorded_traces_total":                   nTraces,
+		"evaluations":                             replayed + nTraces,
+		"distinct_nontrivial":                     nontrivial,
+		"rule":                                    "lock-step: every behaviour (configuration x completion order) emitted by SchedGen.tla for the listed configs, distinct by (configuration, release order), non-trivial = at least 2 releases; traces: seeded random DAGs of 2..8 stages (nested pipeline 1/3, unevaluable condition 1/4, caller Cancel 1/5) with random release timing",
+		"model_runs":                              modelRuns,
+		"distinct_lockstep_cases":                 distinct.N(),
+		"binding_selftest":                        selftest,
+		"repository_tests_as_trace_sources":       repoInfo,
+		"whole_binary_traces_against_Taskctl_tla": composeInfo,
+		"samples":                                 samples.List(),
+		"checker_cmds":                            cmds,
+		"exhaustive":                              true,
+		"exhaustive_scope":                        "all DAGs on <=3 stages x 4 classes x all completion orders (flat and with one nested pipeline); quick samples 3000 of the 43897 4-stage behaviours, thorough replays all of them and the 55284 nested 4-stage ones",
 	}
 	return &core.Result{Level: "model_checking", Coverage: cov, Assumptions: []string{
 		"stage conditions are the external programs `false` and a non-existent path (values do not change during a run)",
